@@ -27,8 +27,9 @@ type fakeLimiter2 struct {
 
 func (f *fakeLimiter2) MaxCapacity() uint32 { return f.maxcap.Load() }
 func (f *fakeLimiter2) Capacity() uint32 {
-	f.log.Logf("L", "capread")
-	return f.cap.Load()
+	v := f.cap.Load()
+	f.log.Logf("L", "capread %d", v)
+	return v
 }
 func (f *fakeLimiter2) GiveMe(v uint32)                 { f.log.Logf("L", "giveme %d", v) }
 func (f *fakeLimiter2) Start(ctx context.Context) error { return nil }
